@@ -1,6 +1,7 @@
 import Sismic.Proofs.C06
 import Sismic.Proofs.OkSpec
 import Sismic.Proofs.LogFilters
+import Sismic.Spec.WF
 /-!
 # Property C06 — history states restore exactly what was active
 
@@ -107,5 +108,74 @@ theorem idle_keeps_memory {σ ω : Type} (env : Env σ ω) (clock : Int) (rs rs'
   | cons first tail =>
     obtain ⟨steps, hr, _⟩ := hcons first tail rfl
     exact absurd hr (by simp)
+
+/-- within one micro step: the record written when `p` is exited survives the other exits of the step -/
+theorem record_written_in_step (c : Chart) (cfg0 : List Name) (p h : Name) (a : List Name)
+    (hrec : ∀ cm, memGet (exitPure c cfg0 cm p).2 h = some (h, a))
+    (hother : ∀ n, n ≠ p → h ∉ c.childrenFor n) :
+    ∀ (ex : List Name) (cm : List Name × List (Name × List Name)), p ∈ ex →
+      memGet (ex.foldl (exitPure c cfg0) cm).2 h = some (h, a)
+  | [], _, hin => absurd hin (by simp)
+  | n :: rest, cm, hin => by
+    simp only [List.foldl_cons]
+    by_cases hr : p ∈ rest
+    · exact record_written_in_step c cfg0 p h a hrec hother rest _ hr
+    · have hn : n = p := by
+        rcases List.mem_cons.mp hin with e | e
+        · exact e.symm
+        · exact absurd e hr
+      subst hn
+      rw [foldl_exitPure_other c cfg0 h rest _ (fun m hm => hother m (fun e => hr (e ▸ hm)))]
+      exact hrec cm
+
+/-- **What a shallow history state holds is what was active when its parent was last exited.**
+    Let the micro steps `pre ++ m :: post` be applied from `cm`; if `m` exits the compound state `p`
+    (the parent of the shallow history state `h`), and no later step exits `p`, then the memory of
+    `h` afterwards is the direct child of `p` that was active when `m` started — whatever happened
+    before, in between and afterwards. -/
+theorem shallow_memory_is_last_exit (c : Chart) (hwf : WFChart c) (p h : Name)
+    (hp : c.parentFor h = some p) (hkp : (c.stateD p).kind = .compound) (hk : c.kindOf h = some .shallow)
+    (pre post : List Micro) (m : Micro) (cm : List Name × List (Name × List Name))
+    (hin : p ∈ m.exited)
+    (hone : ((applyMicros c cm pre).1.filter (fun x => (c.childrenFor p).contains x)).length = 1)
+    (hlater : ∀ m' ∈ post, p ∉ m'.exited) :
+    memGet (applyMicros c cm (pre ++ m :: post)).2 h =
+      some (h, (applyMicros c cm pre).1.filter (fun x => (c.childrenFor p).contains x)) := by
+  have hother : ∀ n, n ≠ p → h ∉ c.childrenFor n := by
+    intro n hn hmem
+    have := (hwf.children n h).mp hmem
+    rw [hp] at this
+    exact hn (Option.some.inj this).symm
+  have hh : h ∈ c.childrenFor p := (hwf.children p h).mpr hp
+  have e1 : applyMicros c cm (pre ++ m :: post) = applyMicros c (applyMicro c (applyMicros c cm pre) m) post := by
+    simp [applyMicros, List.foldl_append]
+  rw [e1]
+  rw [record_kept_steps c h post _ (fun m' hm' n hn => hother n (fun e => hlater m' hm' (e ▸ hn)))]
+  simp only [applyMicro]
+  exact record_written_in_step c _ p h _
+    (fun cm' => exit_records_shallow c _ cm' p h hkp hh hk hone) hother m.exited _ hin
+
+/-- … and a deep history state holds the whole active sub-configuration of that moment. -/
+theorem deep_memory_is_last_exit (c : Chart) (hwf : WFChart c) (p h : Name)
+    (hp : c.parentFor h = some p) (hkp : (c.stateD p).kind = .compound) (hk : c.kindOf h = some .deep)
+    (pre post : List Micro) (m : Micro) (cm : List Name × List (Name × List Name))
+    (hin : p ∈ m.exited)
+    (hone : 1 ≤ ((applyMicros c cm pre).1.filter (fun x => (c.descendants p).contains x)).length)
+    (hlater : ∀ m' ∈ post, p ∉ m'.exited) :
+    memGet (applyMicros c cm (pre ++ m :: post)).2 h =
+      some (h, (applyMicros c cm pre).1.filter (fun x => (c.descendants p).contains x)) := by
+  have hother : ∀ n, n ≠ p → h ∉ c.childrenFor n := by
+    intro n hn hmem
+    have := (hwf.children n h).mp hmem
+    rw [hp] at this
+    exact hn (Option.some.inj this).symm
+  have hh : h ∈ c.childrenFor p := (hwf.children p h).mpr hp
+  have e1 : applyMicros c cm (pre ++ m :: post) = applyMicros c (applyMicro c (applyMicros c cm pre) m) post := by
+    simp [applyMicros, List.foldl_append]
+  rw [e1]
+  rw [record_kept_steps c h post _ (fun m' hm' n hn => hother n (fun e => hlater m' hm' (e ▸ hn)))]
+  simp only [applyMicro]
+  exact record_written_in_step c _ p h _
+    (fun cm' => exit_records_deep c _ cm' p h hkp hh hk hone) hother m.exited _ hin
 
 end Sismic.C06
